@@ -6,4 +6,11 @@
 #include <upipe/udict.h>
 int stub_udict_cmp(struct udict *a, struct udict *b);
 #define udict_cmp stub_udict_cmp
+/* content comparison of the buffer that came in with the one that went out (defined in vpipeflow.h) */
+#include <upipe/uref.h>
+#define VF_DATE_SYS 1
+#define VF_DATE_PROG 2
+#define VF_DATE_ORIG 4
+#define VF_RAP_DELAY 8
+static inline bool spec_same_uref(const struct uref *a, const struct uref *b, unsigned may, uint64_t flag_mask);
 #endif
